@@ -710,3 +710,359 @@ def run_c20(t):
                             return False, {"why": "LinGreedy expectation of arm %r does not scale with the rewards (factor %r): %r vs %r" % (k1, c, f2, c * f1)}
         return True, {}
     return True, {}
+
+# ------------------------------------------------------------------ C17
+BAD_CLASSES = ["len_mismatch", "nonfinite", "nonbinary_ts", "ctx_presence", "ctx_rows", "ctx_width", "add_dup", "add_none", "add_nan",
+               "add_inf", "rem_unknown", "warm_nondict", "warm_q_int", "warm_q_range", "warm_keys", "too_few_rows", "bad_types",
+               "predict_ctx_presence", "ctx_1d"]
+
+def history_dims(base, upto):
+    d = None; arms = list(base["arms"]); fitted = False; nrows = 0
+    for o in base["ops"][:upto]:
+        if o[0] in ("fit", "pfit"):
+            if o[3] is not None and (o[0] == "fit" or not fitted):
+                d = len(o[3][0]) if o[3] else d
+            nrows = len(o[1]) if (o[0] == "fit" or not fitted) else nrows + len(o[1])
+            fitted = True
+        elif o[0] == "add":
+            arms.append(o[1])
+        elif o[0] == "rem" and o[1] in arms:
+            arms.remove(o[1])
+    return d, arms, fitted, nrows
+
+def gen_c17(rng, tier):
+    base = gen.gen_cf_case(rng, max_ops=6, warm=True) if rng.random() < 0.35 else gen.gen_ctx_case(rng, max_ops=5, warm=True)
+    pos = 0 if rng.random() < 0.25 else rng.randint(0, len(base["ops"]))
+    cls = rng.choice(BAD_CLASSES)
+    npk = base["np"][0] if base.get("np") else "none"
+    z = rng.random()
+    # classes that only exist for some policies are drawn more often there (errors from inside training)
+    if npk == "clusters" and z < 0.4:
+        cls = "too_few_rows"
+    elif (npk != "none" or base["lp"][0] in gen.LIN_KINDS) and z < 0.55:
+        cls = rng.choice(["ctx_width", "ctx_rows", "predict_ctx_presence", "ctx_presence"])
+    elif base["lp"][0] == "thompson" and base["lp"][1] is None and z < 0.7:
+        cls = "nonbinary_ts"
+    return {"base": base, "pos": pos, "cls": cls, "seed2": rng.randint(0, 10**9)}
+
+def bad_call(mab, label, inv, base, cls, rng, d, arms, fitted):
+    """performs one invalid call; returns the exception (or None if the call was accepted / not applicable)"""
+    contextual = mab.is_contextual
+    n = rng.randint(2, 6)
+    la = [label(a) for a in arms]
+    ds = [rng.choice(la) for _ in range(n)]
+    ts = base["lp"][0] == "thompson"
+    rs = [float(rng.randint(0, 1)) for _ in range(n)]
+    dd = d or 2
+    cx = gen.gen_ctx(rng, n, dd) if contextual else None
+    meth = rng.choice([mab.fit, mab.partial_fit])
+    try:
+        if cls == "len_mismatch":
+            meth(ds, rs[:-1], cx)
+        elif cls == "nonfinite":
+            r2 = list(rs); r2[rng.randrange(n)] = rng.choice([float("nan"), float("inf"), None])
+            meth(ds, r2, cx)
+        elif cls == "nonbinary_ts":
+            if not (ts and base["lp"][1] is None):
+                return "n/a"
+            r2 = list(rs); r2[0] = 0.5
+            meth(ds, r2, cx)
+        elif cls == "ctx_presence":
+            meth(ds, rs, None if contextual else gen.gen_ctx(rng, n, 2))
+        elif cls == "ctx_rows":
+            if not contextual: return "n/a"
+            meth(ds, rs, cx[:-1])
+        elif cls == "ctx_width":
+            if not (contextual and fitted): return "n/a"
+            mab.partial_fit(ds, rs, gen.gen_ctx(rng, n, dd + 1))
+        elif cls == "add_dup":
+            mab.add_arm(rng.choice(la))
+        elif cls == "add_none":
+            mab.add_arm(None)
+        elif cls == "add_nan":
+            mab.add_arm(np.nan)
+        elif cls == "add_inf":
+            mab.add_arm(np.inf)
+        elif cls == "rem_unknown":
+            mab.remove_arm(label(97))
+        elif cls == "warm_nondict":
+            mab.warm_start([[1.0, 2.0] for _ in la], 0.5)
+        elif cls == "warm_q_int":
+            mab.warm_start({a: [1.0, float(i)] for i, a in enumerate(la)}, 1)
+        elif cls == "warm_q_range":
+            mab.warm_start({a: [1.0, float(i)] for i, a in enumerate(la)}, rng.choice([1.5, -0.25]))
+        elif cls == "warm_keys":
+            mab.warm_start({a: [1.0, float(i)] for i, a in enumerate(la[:-1])}, 0.5)
+        elif cls == "too_few_rows":
+            if not (base.get("np") and base["np"][0] == "clusters"): return "n/a"
+            meth([la[0]], [1.0], gen.gen_ctx(rng, 1, dd))
+        elif cls == "bad_types":
+            z = rng.randrange(3)
+            if z == 0: meth("abc", rs, cx)
+            elif z == 1: meth(ds, {"a": 1}, cx)
+            else: meth(ds, rs, "ctx" if contextual else 3.0)
+        elif cls == "predict_ctx_presence":
+            if not (contextual and fitted): return "n/a"
+            mab.predict(None)
+        elif cls == "ctx_1d":
+            if not fitted: return "n/a"
+            mab.predict_expectations([1.0, 2.0])
+        else:
+            return "n/a"
+    except Exception as e:      # noqa
+        return e
+    return None
+
+def run_c17(t):
+    base = t["base"]; rng = random.Random(t["seed2"])
+    mab, label, inv = mwh.build_mab(base)
+    for o in base["ops"][:t["pos"]]:
+        mwh.apply_op(mab, o, label, inv, base)
+    d, arms, fitted, nrows = history_dims(base, t["pos"])
+    fitted = mab._is_initial_fit
+    twin = copy.deepcopy(mab)
+    exc = bad_call(mab, label, inv, base, t["cls"], rng, d, arms, fitted)
+    if exc == "n/a":
+        return True, {"skipped": "class not applicable here"}
+    if exc is None:
+        return True, {"skipped": "call was accepted"}
+    # continuation: the rest of the history plus a further partial_fit and queries
+    cont = list(base["ops"][t["pos"]:])
+    dd, arms2, _, _ = history_dims(base, len(base["ops"]))
+    if [inv(a) for a in mab.arms] != [inv(a) for a in twin.arms]:
+        return False, {"why": "arms changed by a rejected call (%s: %r)" % (t["cls"], exc), "arms": [inv(a) for a in mab.arms]}
+    if mab._is_initial_fit != twin._is_initial_fit:
+        return False, {"why": "the rejected call (%s: %r) changed whether the bandit counts as fitted" % (t["cls"], exc)}
+    style = base.get("reward_style", "binary")
+    draw = gen.reward_stream(rng, "binary" if base["lp"][0] == "thompson" and base["lp"][1] is None else (style if style != "float" else "dyadic"))
+    n = 8 if base.get("np") and base["np"][0] in ("clusters", "knearest") else rng.randint(1, 6)
+    dsx = [rng.choice(arms2) for _ in range(n)] if arms2 else []
+    cxx = None if not mab.is_contextual else gen.gen_ctx(rng, n, dd or 2)
+    if cxx is not None and base.get("np") and base["np"][0] == "clusters":
+        for i in range(min(n, 4)): cxx[i][0] = float(i)
+    cont.append(("pfit", dsx, [draw() for _ in range(n)], cxx))
+    cont.append(("pexp", None if cxx is None else gen.gen_ctx(rng, 2, dd or 2)))
+    cont.append(("pred", None if cxx is None else [list(cxx[0])]))
+    for i, o in enumerate(cont):
+        a = mwh.apply_op(mab, o, label, inv, base)
+        b = mwh.apply_op(twin, o, label, inv, base)
+        if a[0] != b[0] or not outs_equal(a, b, rel_mode(base), rtol=1e-12):
+            return False, {"why": "after a rejected %s call (%s: %s) continuation call %d (%s) differs from the bandit that never saw the call" % (
+                               t["cls"], type(exc).__name__, str(exc)[:120], i, o[0]),
+                           "after_rejected": str(a)[:300], "never_called": str(b)[:300]}
+        if [inv(x) for x in mab.arms] != [inv(x) for x in twin.arms]:
+            return False, {"why": "arms differ after continuation call %d" % i}
+    return True, {}
+
+# ------------------------------------------------------------------ independent oracles built from the raw history
+def training_history(base, outs=None, upto=None):
+    """rows (decision, reward, context) in force after the ops: reset by fit (or the first partial_fit)"""
+    rows = []; fitted = False; arms = list(base["arms"]); added_after = {}
+    ops = base["ops"] if upto is None else base["ops"][:upto]
+    for j, o in enumerate(ops):
+        if outs is not None and outs[j][0] == "rejected":
+            continue
+        if o[0] == "fit" or (o[0] == "pfit" and not fitted):
+            rows = [(d, r, None if o[3] is None else o[3][i]) for i, (d, r) in enumerate(zip(o[1], o[2]))]
+            fitted = True
+        elif o[0] == "pfit":
+            rows += [(d, r, None if o[3] is None else o[3][i]) for i, (d, r) in enumerate(zip(o[1], o[2]))]
+        elif o[0] == "add":
+            arms.append(o[1])
+            rows = [x for x in rows if x[0] != o[1]]      # a (re-)added arm starts without observations
+        elif o[0] == "rem" and o[1] in arms:
+            arms.remove(o[1])
+    return rows, arms, fitted
+
+def cf_expectation(kind, hp, rewards, total):
+    n = len(rewards)
+    if n == 0:
+        return 0.0
+    mean = float(np.sum(np.asarray(rewards, dtype=float))) / n
+    if kind == "greedy":
+        return mean
+    if kind == "ucb":
+        return mean + hp * math.sqrt(2 * math.log(total) / n)
+    raise ValueError(kind)
+
+# ------------------------------------------------------------------ C11
+def gen_c11(rng, tier):
+    kind = rng.choice(["greedy", "ucb"])
+    base = gen.gen_ctx_case(rng, nps=["lsh"], lps=[kind], max_ops=4, arm_changes=False, reward_styles=["dyadic", "smallint", "binary"],
+                            queries=False, max_rows=40)
+    if kind == "greedy":
+        base["lp"] = ("greedy", 0.0)
+    return {"base": base, "seed2": rng.randint(0, 10**9)}
+
+def sign_patterns(X, planes):
+    return [tuple(map(tuple, (np.dot(X, planes[k]) > 0).astype(int))) for k in sorted(planes.keys())]
+
+def run_c11(t):
+    base = t["base"]; rng = random.Random(t["seed2"])
+    mab, label, inv, outs = drive(base)
+    if not mab._is_initial_fit:
+        return True, {"skipped": "untrained"}
+    imp = mab._imp
+    rows, arms, _ = training_history(base, outs)
+    X = np.asarray([r[2] for r in rows], dtype=float)
+    planes = {k: np.asarray(imp.table_to_plane[k], dtype=float) for k in imp.table_to_plane}
+    pats = sign_patterns(X, planes)
+    d = X.shape[1]
+    queries = []
+    for _ in range(6):
+        z = rng.random()
+        if z < 0.35:
+            queries.append(("stored", list(X[rng.randrange(len(X))])))
+        elif z < 0.7:
+            c = rng.choice([2.0, 0.5, 3.0, 2.0 ** -40, 1e-12, 2.0 ** 30, 1e-9])
+            queries.append(("scaled", [c * v for v in X[rng.randrange(len(X))]], c))
+        elif z < 0.8:
+            queries.append(("zero", [0.0] * d))
+        else:
+            queries.append(("random", [float(rng.randint(-6, 6)) for _ in range(d)]))
+    kind, hp = base["lp"][0], base["lp"][1]
+    for q in queries:
+        x = np.asarray([q[1]], dtype=float)
+        ambiguous = False
+        nb = set()
+        for k, key in enumerate(sorted(planes.keys())):
+            proj = np.dot(x, planes[key])[0]
+            scale = np.abs(x[0])[:, None] * np.abs(planes[key])
+            if np.any((np.abs(proj) < 1e-9 * scale.sum(axis=0)) & (scale.sum(axis=0) > 0)):
+                ambiguous = True
+            pq = tuple((proj > 0).astype(int))
+            nb |= {j for j in range(len(X)) if pats[k][j] == pq}
+        if ambiguous:
+            continue
+        nb = sorted(nb)
+        got = mwh.apply_op(mab, ("pexp", [q[1]]), label, inv, base)
+        if got[0] != "exp":
+            return False, {"why": "predict_expectations raised on query %s" % (q,), "out": str(got)}
+        if not nb:
+            want = [(a, "nan") for a in arms]
+        else:
+            total = len(nb)
+            want = [(a, mwh.canon_val(cf_expectation(kind, hp, [rows[j][1] for j in nb if rows[j][0] == a], total))) for a in arms]
+        if not outs_equal(got, ("exp", want), "tol", rtol=1e-12, atol=1e-12):
+            return False, {"why": "expectations for a %s query differ from the learning policy trained on the sign-pattern collision set %s" % (q[0], nb),
+                           "query": q, "got": [(a, v if v == "nan" else mwh.bits_f(v)) for a, v in got[1]],
+                           "want": [(a, v if v == "nan" else mwh.bits_f(v)) for a, v in want]}
+        if q[0] in ("stored", "scaled"):
+            # a (positively scaled) stored row has that observation in its neighbourhood
+            src = [j for j in range(len(X)) if all(abs(a * (q[2] if q[0] == "scaled" else 1.0) - b) <= 1e-12 * max(1.0, abs(b)) for a, b in zip(X[j], q[1]))]
+            if src and not any(j in nb for j in src) and not np.all(X[src[0]] == 0):
+                return False, {"why": "stored observation %s is not in the neighbourhood of its own (scaled) context" % src, "query": q}
+    return True, {}
+
+# ------------------------------------------------------------------ C12
+def gen_c12(rng, tier):
+    kind = rng.choice(["greedy", "ucb"])
+    base = gen.gen_ctx_case(rng, nps=["clusters", "tree"], lps=[kind], max_ops=5, reward_styles=["dyadic", "smallint", "binary"],
+                            queries=False, max_rows=30)
+    if kind == "greedy":
+        base["lp"] = ("greedy", 0.0)
+    return {"base": base, "seed2": rng.randint(0, 10**9)}
+
+def run_c12(t):
+    base = t["base"]; rng = random.Random(t["seed2"])
+    mab, label, inv, outs = drive(base)
+    if not mab._is_initial_fit:
+        return True, {"skipped": "untrained"}
+    imp = mab._imp
+    rows, arms, _ = training_history(base, outs)
+    # for Clusters / TreeBandit an added arm does not erase stored rows of the same label; recompute without that rule
+    rows = []
+    fitted = False
+    for j, o in enumerate(base["ops"]):
+        if outs[j][0] == "rejected":
+            continue
+        if o[0] == "fit" or (o[0] == "pfit" and not fitted):
+            rows = [(dd, r, o[3][i]) for i, (dd, r) in enumerate(zip(o[1], o[2]))]; fitted = True
+        elif o[0] == "pfit":
+            rows += [(dd, r, o[3][i]) for i, (dd, r) in enumerate(zip(o[1], o[2]))]
+        elif o[0] in ("add", "rem") and base["np"][0] == "tree":
+            rows = [x for x in rows if x[0] != o[1]]      # the arm's tree and leaf rewards are dropped / created empty
+    X = np.asarray([r[2] for r in rows], dtype=float)
+    d = X.shape[1]
+    kind, hp = base["lp"][0], base["lp"][1]
+    qs = [list(X[rng.randrange(len(X))]) for _ in range(3)] + gen.gen_ctx(rng, 3, d)
+    for q in qs:
+        got = mwh.apply_op(mab, ("pexp", [q]), label, inv, base)
+        if got[0] != "exp":
+            return False, {"why": "predict_expectations raised", "out": str(got)}
+        if base["np"][0] == "clusters":
+            lab = imp.kmeans.predict(X); c = int(imp.kmeans.predict(np.asarray([q], dtype=float))[0])
+            cell = [rows[j] for j in range(len(rows)) if lab[j] == c]
+            want = [(a, mwh.canon_val(cf_expectation(kind, hp, [r for dd, r, _ in cell if dd == a], len(cell)))) for a in arms]
+        else:
+            want = []
+            for a in arms:
+                tree = imp.arm_to_tree[label(a)]
+                mine = [(r, cx) for dd, r, cx in rows if dd == a]
+                if not mine or not hasattr(tree, "tree_"):
+                    want.append((a, mwh.canon_val(0.0))); continue
+                lq = tree.apply(np.asarray([q], dtype=float))[0]
+                leaves = tree.apply(np.asarray([cx for _, cx in mine], dtype=float))
+                rew = [r for (r, _), lf in zip(mine, leaves) if lf == lq]
+                want.append((a, mwh.canon_val(cf_expectation(kind, hp, rew, len(rew)))))
+        if not outs_equal(got, ("exp", want), "tol", rtol=1e-12, atol=1e-12):
+            return False, {"why": "expectations differ from the learning policy statistic over the observations in the query's %s" % (
+                               "cluster" if base["np"][0] == "clusters" else "leaf (per arm)"),
+                           "query": q, "got": [(a, mwh.bits_f(v)) for a, v in got[1]], "want": [(a, mwh.bits_f(v)) for a, v in want]}
+    return True, {}
+
+# ------------------------------------------------------------------ C02
+def gen_c02(rng, tier):
+    base = gen.gen_ctx_case(rng, nps=["none"], lps=gen.LIN_KINDS, max_ops=5, reward_styles=["dyadic", "smallint", "float"], queries=False,
+                            max_rows=30, fit_prob=0.05)
+    lp = list(base["lp"])
+    if lp[0] == "lingreedy": lp[1] = 0.0
+    if lp[0] == "lints": lp[1] = 1e-9
+    # scale=True only with a single fit (running standardisation is excluded by the property)
+    if lp[3] and sum(1 for o in base["ops"] if o[0] in ("fit", "pfit")) > 1:
+        lp[3] = False
+    base["lp"] = tuple(lp)
+    return {"base": base, "seed2": rng.randint(0, 10**9)}
+
+def run_c02(t):
+    base = t["base"]; rng = random.Random(t["seed2"])
+    mab, label, inv, outs = drive(base)
+    if not mab._is_initial_fit:
+        return True, {"skipped": "untrained"}
+    rows, arms, _ = training_history(base, outs)
+    # _Linear: add_arm creates a fresh model, so the erase-on-add rule of training_history applies
+    kind, alpha, l2, scale = base["lp"][0], base["lp"][1], base["lp"][2], base["lp"][3]
+    d = len(rows[0][2]) if rows else None
+    if d is None:
+        return True, {"skipped": "no rows"}
+    m = rng.choice([1, 1, 2, 4])
+    Q = np.asarray(gen.gen_ctx(rng, m, d), dtype=float)
+    got = mwh.apply_op(mab, ("pexp", [list(r) for r in Q]), label, inv, base)
+    if got[0] not in ("exp", "exps"):
+        return False, {"why": "predict_expectations raised", "out": str(got)}
+    gl = [got[1]] if got[0] == "exp" else got[1]
+    unobserved = []
+    for a in arms:
+        mine = [(r, cx) for dd, r, cx in rows if dd == a]
+        Xa = np.asarray([cx for _, cx in mine], dtype=float).reshape(-1, d)
+        ya = np.asarray([r for r, _ in mine], dtype=float)
+        Qa = Q
+        if scale and len(mine):
+            mu = Xa.mean(axis=0); sd = Xa.std(axis=0); sd = np.where(sd <= 1e-6, 1.0, sd)
+            Xa = (Xa - mu) / sd; Qa = (Q - mu) / sd
+        A = l2 * np.eye(d) + Xa.T @ Xa
+        beta = np.linalg.solve(A, Xa.T @ ya) if len(mine) else np.zeros(d)
+        Ainv = np.linalg.inv(A)       # = I/l2 for an arm never observed
+        if not len(mine):
+            unobserved.append(a)
+        for i in range(m):
+            want = float(Qa[i] @ beta)
+            if kind == "linucb":
+                want += alpha * math.sqrt(float(Qa[i] @ Ainv @ Qa[i]))
+            g = mwh.bits_f(dict(gl[i])[a])
+            tol = 1e-6 * max(1.0, abs(want)) + (1e-5 * math.sqrt(float(Qa[i] @ Ainv @ Qa[i])) if kind == "lints" else 0.0)
+            if abs(g - want) > tol:
+                return False, {"why": "%s expectation of arm %r for context row %d is %r, the ridge regression of its %d observations gives %r" % (
+                                   kind, a, i, g, len(mine), want),
+                               "arm_never_observed": not len(mine), "l2_lambda": l2, "alpha": alpha, "scale": scale, "d": d, "m": m}
+    return True, {}
